@@ -61,6 +61,11 @@ type world struct {
 	daItems  []string
 	mod      sdk.AccAddress // shareclass module account
 	feeColl  sdk.AccAddress
+	daMod    sdk.AccAddress
+
+	genValAccs []sdk.AccAddress // account addresses of the genesis validators
+	uriIDs     map[string]int64
+	gids       map[string]int64
 }
 
 type poolInfo struct {
@@ -78,10 +83,14 @@ func newWorld(seed int64, nAcct, nGenVals int) *world {
 		sdk.NewCoin("uusdc", big36), sdk.NewCoin("uatom", big36), sdk.NewCoin("uosmo", big36),
 	)
 	h := apph.New(apph.Options{NumAccounts: nAcct, NumValidators: nGenVals, Balances: bal})
-	w := &world{h: h, r: emit.NewRand(seed), txSeq: map[string]uint64{}}
+	w := &world{h: h, r: emit.NewRand(seed), txSeq: map[string]uint64{}, uriIDs: map[string]int64{}, gids: map[string]int64{}}
 	w.mod = h.App.AuthKeeper.GetModuleAddress(sctypes.ModuleName)
 	w.feeColl = h.App.AuthKeeper.GetModuleAddress("fee_collector")
+	w.daMod = h.App.AuthKeeper.GetModuleAddress(datypes.ModuleName)
 	w.refreshVals()
+	for _, v := range w.vals {
+		w.genValAccs = append(w.genValAccs, v.Acc)
+	}
 	return w
 }
 
@@ -317,7 +326,8 @@ func (w *world) msgVoteGauge(a int, weights map[uint64]string) sdk.Msg {
 
 func (w *world) msgPublish(a int, n, parity int) (sdk.Msg, string) {
 	w.daSeq++
-	uri := fmt.Sprintf("ipfs://verif-c01/%d", w.daSeq)
+	uri := fmt.Sprintf("ipfs://verif-c01/%06d", w.daSeq)
+	w.uriIDs[uri] = int64(w.daSeq)
 	hashes := make([][]byte, n)
 	for i := range hashes {
 		s := sha256.Sum256([]byte(fmt.Sprintf("%s/%d", uri, i)))
